@@ -38,12 +38,14 @@ TECHNIQUE = (
 LEVEL_TEXT = (
     "Generated mixes (8-40 events) of outgoing / internal / incoming / unserialisable telegrams, joins and stop/start cycles at "
     "chosen virtual instants (same instant, around 1/r, around the 3 s confirmation timeout), rate limits {0,5,20,100}, with a "
-    "per-hand-off scripted send outcome {ok+sync/late/no confirmation, slow, CommunicationError, ConversionError, ValueError, "
+    "per-hand-off scripted send outcome {ok+sync/late/no confirmation, confirmation after the 3 s timeout, duplicate confirmations, "
+    "unsolicited confirmations while idle, slow, CommunicationError, ConversionError, ValueError, "
     "RuntimeError, KeyError, OSError, TimeoutError}, raising callbacks and raising devices. Exploration: the space of mixes is sampled."
 )
 LEVEL_NOTE = (
     "Trusted: asyncio, the virtual loop. The interface is a fake at the public slot xknx.knxip_interface (serialises the frame like "
-    "every real interface, then follows the script). Judged: hand-off order/exactly-once/no overlap/spacing (spacing not judged "
+    "every real interface, then follows the script). Judged: hand-off order/exactly-once/no overlap, the next hand-off not before the previous telegram was "
+    "confirmed by an L_DATA.con delivered after its own hand-off began (or its send failed / the 3 s timeout ran out), spacing (spacing not judged "
     "across a stop/start cycle: the interface is torn down in between), internal telegrams never handed off but seen once by the "
     "devices on the address and by matching outgoing callbacks (only when no device on the address raises: what a raising device does "
     "to later devices/callbacks is recorded, not judged), every join()/stop() returning within the sum of declared timeouts. "
@@ -86,8 +88,8 @@ def gen_case(rng: random.Random) -> dict:
     dts = (0.0, 0.0, 0.0, 0.001, step, step - 1e-4, step + 1e-4, step / 2, 0.5, CONFIRM_TIMEOUT, 5.0)
     for _ in range(n):
         kind = rng.choices(
-            ("out", "outi", "in", "ini", "bad", "join", "restart", "burst"),
-            (40, 14, 18, 3, 4, 6, 5, 6),
+            ("out", "outi", "in", "ini", "bad", "join", "restart", "burst", "con"),
+            (40, 14, 18, 3, 4, 6, 5, 6, 4),
         )[0]
         ev = {"dt": rng.choice(dts), "kind": kind}
         if kind in ("out", "in", "bad"):
@@ -109,8 +111,13 @@ def gen_case(rng: random.Random) -> dict:
         k = rng.random()
         if k < 0.40:
             outcomes.append(("ok", 0.0, None, "sync"))
-        elif k < 0.58:
+        elif k < 0.52:
             outcomes.append(("ok_late_con", 0.0, None, rng.choice((0.0, 0.01, 1.0, 2.99))))
+        elif k < 0.55:
+            # the confirmation arrives after the handler gave up (ConfirmationError), possibly while the queue is idle
+            outcomes.append(("ok_con_after_timeout", 0.0, None, rng.choice((CONFIRM_TIMEOUT + 1e-3, 3.5, 5.0))))
+        elif k < 0.58:
+            outcomes.append(("ok_duplicate_con", 0.0, None, rng.choice((["sync", "sync"], ["sync", 0.0], [0.01, 0.01, 0.5], [0.0, 1.0], ["sync", 3.5]))))
         elif k < 0.64:
             outcomes.append(("ok_no_con", 0.0, None, None))
         elif k < 0.74:
@@ -283,6 +290,10 @@ def execute(case: dict) -> dict:
                 await xknx.start()
                 obs["restarts"] += 1
                 obs["restart_marks"].append(len(fake(xknx).handoffs))
+            elif kind == "con":
+                # an unsolicited / repeated L_DATA.con from the gateway (queue idle or busy)
+                if fake(xknx).confirm_last():
+                    obs["unsolicited_cons"] = obs.get("unsolicited_cons", 0) + 1
             elif kind == "burst":
                 for a in ev["addrs"]:
                     emit("outi" if a.startswith("i-") else "out", a, ev["payload"])
@@ -399,6 +410,41 @@ def judge(ctx, case: dict, obs: dict, wit: dict) -> None:
             ctx.violation("send-overlaps-previous-send", dict(wit, index=h.index, t=h.t_start),
                           f"send_cemi #{h.index} started while {h.active_at_start} send(s) still in progress")
     ctx.count("overlap_checked", len(hos))
+    # "one at a time" on the bus: the next telegram is not handed over before the previous one was confirmed by an
+    # L_DATA.con delivered AFTER its own hand-off began, its send failed, or the declared confirmation timeout ran out
+    tl = iface.timeline
+    ctx.count("unsolicited_or_repeated_cons", obs.get("unsolicited_cons", 0))
+    pos_start = {idx: n for n, (what, idx, _t) in enumerate(tl) if what == "start"}
+    for a, b in zip(hos, hos[1:]):
+        if a.t_end is None:
+            continue
+        if a.raised:
+            release = a.t_end
+            why = "send-failed"
+        else:
+            own = next((t for (what, _i, t) in tl[pos_start[a.index] + 1:] if what == "con"), None)
+            release = a.t_end + CONFIRM_TIMEOUT
+            why = "timeout"
+            if own is not None and max(own, a.t_end) <= release:
+                release = max(own, a.t_end)
+                why = "con"
+        ctx.count("release_by_" + why)
+        # cons that cannot be this telegram's: a second copy, or one that came after the predecessor's timeout, before its hand-off
+        lo = pos_start[a.index - 1] if a.index - 1 in pos_start else 0
+        before = [t for (what, _i, t) in tl[lo:pos_start[a.index]] if what == "con"]
+        prev = hos[a.index - 1] if a.index else None
+        stale = len(before) >= 2 or (prev is not None and prev.t_end is not None and any(t > prev.t_end + CONFIRM_TIMEOUT for t in before)) \
+            or (prev is None and bool(before))
+        if stale:
+            ctx.count("handoffs_preceded_by_a_stale_or_duplicate_con")
+        if b.t_start < release - EPS:
+            ctx.violation("next-telegram-handed-over-before-previous-was-confirmed",
+                          dict(wit, prev=a.index, next=b.index, prev_end=a.t_end, next_start=b.t_start, earliest_release=release,
+                               cons=[(i, t) for (what, i, t) in tl if what == "con"][-8:]),
+                          f"hand-off #{b.index} started at {b.t_start:.3f} although #{a.index} (sent {a.t_end:.3f}) was not confirmed "
+                          f"before {release:.3f}")
+        else:
+            ctx.count("confirmation_order_checked")
     if r:
         marks = set(obs["restart_marks"])
         for a, b in zip(hos, hos[1:]):
@@ -479,7 +525,10 @@ def run(ctx):
                 "distinct = (rate limit, first 14 event kinds, first 10 observed send outcomes)")
     ctx.require("handoffs", "order_checked", "overlap_checked", "spacing_checked", "internal_judged", "join_stop_returned",
                 "send_raised_CommunicationError", "send_raised_ValueError", "send_raised_ConversionError",
-                "send_outcome_slow", "send_outcome_ok_no_con", "callback_raised", "restarts", "joins_midway")
+                "send_outcome_slow", "send_outcome_ok_no_con", "callback_raised", "restarts", "joins_midway",
+                "send_outcome_ok_con_after_timeout", "send_outcome_ok_duplicate_con", "unsolicited_or_repeated_cons",
+                "confirmation_order_checked", "release_by_con", "release_by_timeout", "release_by_send-failed",
+                "handoffs_preceded_by_a_stale_or_duplicate_con")
     n = ctx.scale(2500, 160000)
     for i in range(n):
         if not ctx.mine(i):
